@@ -513,6 +513,62 @@ class _GuardContinue(ast.NodeTransformer):
         return body
 
 
+class _ReduceToLoop(ast.NodeTransformer):
+    """`x = reduce(F, IT, INIT)` is `x = INIT; for e in IT: x = F(x, e)` (functools.reduce with an initial value); a two-parameter
+    lambda is applied by substitution.  Only when x does not occur in F / IT (they are evaluated before x is bound)."""
+    counter = 0
+
+    def _expand(self, st):
+        if isinstance(st, ast.Assign) and len(st.targets) == 1 and isinstance(st.targets[0], ast.Name):
+            name, call = st.targets[0].id, st.value
+        elif isinstance(st, ast.Return) and st.value is not None:
+            name, call = None, st.value
+        else:
+            return [st]
+        if not (isinstance(call, ast.Call) and not call.keywords and len(call.args) == 3 and
+                ((isinstance(call.func, ast.Name) and call.func.id == 'reduce') or
+                 (isinstance(call.func, ast.Attribute) and call.func.attr == 'reduce' and isinstance(call.func.value, ast.Name)
+                  and call.func.value.id == 'functools'))):
+            return [st]
+        F, IT, INIT = call.args
+        _ReduceToLoop.counter += 1
+        acc = name or '_red%d' % _ReduceToLoop.counter
+        if any(isinstance(n, ast.Name) and n.id == acc for x in (F, IT) for n in ast.walk(x)):
+            return [st]
+        elem = '_rel%d' % _ReduceToLoop.counter
+        if isinstance(F, ast.Lambda):
+            a = F.args
+            if len(a.args) != 2 or a.vararg or a.kwarg or a.kwonlyargs or a.defaults:
+                return [st]
+            p_acc, p_el = a.args[0].arg, a.args[1].arg
+            if any(isinstance(n, (ast.Lambda, ast.ListComp, ast.GeneratorExp, ast.SetComp, ast.DictComp)) for n in ast.walk(F.body)):
+                return [st]
+            body = _Rename({p_acc: acc, p_el: elem}).visit(copy.deepcopy(F.body))
+        elif isinstance(F, ast.Name):
+            body = ast.Call(func=ast.Name(id=F.id, ctx=ast.Load()),
+                            args=[ast.Name(id=acc, ctx=ast.Load()), ast.Name(id=elem, ctx=ast.Load())], keywords=[])
+        else:
+            return [st]
+        init = ast.Assign(targets=[ast.Name(id=acc, ctx=ast.Store())], value=INIT, type_comment=None)
+        step = ast.Assign(targets=[ast.Name(id=acc, ctx=ast.Store())], value=body, type_comment=None)
+        loop = ast.For(target=ast.Name(id=elem, ctx=ast.Store()), iter=IT, body=[step], orelse=[], type_comment=None)
+        out = [init, loop]
+        if name is None:
+            out.append(ast.Return(value=ast.Name(id=acc, ctx=ast.Load())))
+        return [ast.fix_missing_locations(ast.copy_location(x, st)) for x in out]
+
+    def generic_visit(self, node):
+        super().generic_visit(node)
+        for field in ('body', 'orelse', 'finalbody'):
+            b = getattr(node, field, None)
+            if isinstance(b, list) and any(isinstance(s, (ast.Assign, ast.Return)) for s in b):
+                nb = []
+                for s in b:
+                    nb.extend(self._expand(s))
+                setattr(node, field, nb)
+        return node
+
+
 class _NormaliseIfs(ast.NodeTransformer):
     """`if not C: A else: B` is `if C: B else: A`; an arm that is only `pass` is no arm"""
 
@@ -610,6 +666,7 @@ def inline_project(trees, exports):
                         [b for b in st.body if isinstance(b, ast.FunctionDef)] if isinstance(st, ast.ClassDef) else []):
                 resolve_bound_method_aliases(fn_)
                 _SplitTupleAssigns().visit(fn_)
+                _ReduceToLoop().visit(fn_)
                 _NormaliseIfs().visit(fn_)
                 _GuardContinue().visit(fn_)
         for st in tree.body:
